@@ -205,6 +205,9 @@ def traced_run(cfg, extra_patches=None):
     undo = []
     import io, contextlib
     t0 = time.time()
+    env_before = os.environ.get("CUPCAKE_ENABLE_MULTIPROCESSING")
+    if cfg.get("mp"):
+        os.environ["CUPCAKE_ENABLE_MULTIPROCESSING"] = "1"      # real worker processes (cfg["procs"] of them)
     try:
         if extra_patches:
             undo = extra_patches()
@@ -228,9 +231,17 @@ def traced_run(cfg, extra_patches=None):
             "type": type(res).__name__,
         }
     except Exception as e:  # noqa
+        # what a caller's own except clause would see: worker processes alive while the exception is still in flight
+        import multiprocessing as _mp
+        out["children_at_raise"] = len(_mp.active_children())
         out["error"] = "%s%s: %s" % ("the call returned a %s whose fields could not be read - " % out["returned"] if out.get("returned") else "",
                                     type(e).__name__, str(e)[:300])
     finally:
+        if cfg.get("mp"):
+            if env_before is None:
+                os.environ.pop("CUPCAKE_ENABLE_MULTIPROCESSING", None)
+            else:
+                os.environ["CUPCAKE_ENABLE_MULTIPROCESSING"] = env_before
         main_loop._init_task_pool = orig_init
         _verif.clear_listeners()
         for u in undo:
